@@ -90,8 +90,8 @@ def stream_rows(ctx, ntables):
             df = pd.DataFrame({"c": [7] * N}) if N % 2 else pd.DataFrame({"c": [1.5] * N, "d": ["x"] * N})
             t = {"df": df, "kinds": ["int"] if N % 2 else ["float", "str"], "pids": None, "pid_mode": "unique", "bp": BucketizationParams(), "n": N,
                  "ap": AnonymizationParams(salt=salt)}
-            for lsd in (3.0, 0.0, 0.5, 0.0):
-                t2 = dict(t, ap=replace(t["ap"], low_count_params=replace(t["ap"].low_count_params, layer_sd=lsd), layer_noise_sd=0.0))
+            for lsd, nsd in ((3.0, 0.0), (0.0, 0.0), (0.5, 0.0), (0.0, 0.0), (0.0, 2.0), (0.5, 3.0)):      # the last two: count noise above the suppression noise
+                t2 = dict(t, ap=replace(t["ap"], low_count_params=replace(t["ap"].low_count_params, layer_sd=lsd), layer_noise_sd=nsd))
                 try:
                     out = Synthesizer(df, anonymization_params=t2["ap"], clustering=SingleClustering()).sample()
                 except (RecursionError, ValueError):
